@@ -86,6 +86,20 @@ def run(ctx):
         if rng.chance(1, 4):
             lines.append("c08.capi rpu " + hx(b)); kinds.append(kind)
             lines.append("c08.capi nalu " + hx(b"\x7c\x01" + specgen.escape(b))); kinds.append(kind)
+    # non-canonical escaping at the NAL entry: emulation-prevention bytes at the very end, doubled, before
+    # bytes > 3, and escaped NALs cut right after `00 00` / `00 00 03`
+    EPB_TAILS = [b"\x00\x00\x03", b"\x00\x00\x03\x00\x00\x03", b"\x00\x03", b"\x00\x00\x03\x03", b"\x00\x00\x03\x00",
+                 b"\x03", b"\x00\x00", b"\x00\x00\x03\x80"]
+    for b in valid[: 40 if ctx.tier == "quick" else 1500]:
+        e = specgen.escape(b)
+        for tail in (EPB_TAILS if ctx.tier != "quick" else [rng.choice(EPB_TAILS), EPB_TAILS[0]]):
+            lines.append("c08.nalu " + hx(rng.choice([b"\x7c\x01", b"\x00\x00\x00\x01", b""]) + e + tail)); kinds.append("epb-tail")
+        pos = rng.below(len(e))
+        ins = e[:pos] + b"\x00\x00\x03" + e[pos:]
+        lines.append("c08.nalu " + hx(b"\x7c\x01" + ins)); kinds.append("epb-insert")
+        lines.append("c08.nalu " + hx(b"\x7c\x01" + ins[: pos + 3])); kinds.append("epb-cut")
+        lines.append("c08.nalu " + hx(b"\x7c\x01" + ins[: pos + 2])); kinds.append("epb-cut")
+        lines.append("c08.capi nalu " + hx(b"\x7c\x01" + e + b"\x00\x00\x03")); kinds.append("epb-tail")
     # AV1: OBUs of valid RPUs, mutated; crafted variable_bits runs
     obl = ["av1.obu " + hx(b) for b in valid[: n // 3]]
     obo, _, _ = common.run_lines_sharded(common.LIBCASE, obl)
@@ -117,6 +131,9 @@ def run(ctx):
         st_only.append(rng.choice([core, bytes([0x4E, 0x01, 0x04, rng.below(256)]) + core]))
     for cut in range(0, 12):
         st_only.append(bytes([0xB5, 0x00, 0x31, 0x47, 0x41, 0x39, 0x34, 8, 0, 0, 0, 0])[:cut])
+    for x in list(st_only[:60]):
+        st_only.append(x + rng.choice(EPB_TAILS))
+        st_only.append(x[: rng.below(len(x) + 1)] + b"\x00\x00\x03")
     st_lines = ["c08.st2094 " + hx(b) for b in st_only]
     # RPU files
     file_lines = []
@@ -128,7 +145,7 @@ def run(ctx):
             b = rng.choice(valid)
             if rng.chance(1, 4):
                 b = rpucases.mutate(rng, b, 4, rng.chance(1, 2))
-            parts.append(sc + specgen.escape(b))
+            parts.append(sc + specgen.escape(b) + (rng.choice(EPB_TAILS) if rng.chance(1, 6) else b""))
         blob = b"".join(parts)
         if rng.chance(1, 5):
             blob = blob[: rng.below(len(blob) + 1)]
